@@ -36,8 +36,11 @@ def direct_history(draw):
     n = draw(st.one_of(st.integers(1, 8), st.integers(1, 60)))
     arity = draw(st.sampled_from([1, 2, 2, 3]))
     cands = draw(st.lists(st.lists(member(), min_size=arity, max_size=arity).map(tuple), min_size=n, max_size=n, unique=True))
-    steps = draw(st.lists(st.integers(1, len(cands) + 3), min_size=1, max_size=40))
-    return {'mode': 'direct', 'cands': [list(c) for c in cands], 'steps': [['d', c] for c in steps]}
+    steps = draw(st.lists(st.one_of(st.integers(1, len(cands) + 3), st.integers(0, len(cands) + 3)), min_size=1, max_size=40))   # a cap of 0 selects nothing
+    # fast-forward: the state after `rounds` complete rounds (every candidate evaluated that often) is the starting point, as if the
+    # process had already consumed that many batches with a non-binding cap
+    rounds = draw(st.sampled_from([0, 0, 0, 254, 255, 32766, 32767, 65534, 65535, 65536, 2**31 - 2]))
+    return {'mode': 'direct', 'cands': [list(c) for c in cands], 'steps': [['d', c] for c in steps], 'rounds': rounds}
 
 
 @st.composite
@@ -212,10 +215,14 @@ def pipeline_candidates(cols):
     return [x for x in itertools.combinations_with_replacement(cols, 2) if 'label' in x]
 
 
-def check_history(cands, steps, cols=None, h3mr=False, ncpus=1):
+def check_history(cands, steps, cols=None, h3mr=False, ncpus=1, rounds=0):
     """Interpret the history against the implementation and the model. Returns (#batches, flags)."""
     stubs.reset_globals()
     model = Counter()
+    if rounds:
+        for c in cands:
+            model[c] = int(rounds)
+            cr.GLOBAL_PRIOR_COMB_COUNTS[c] = int(rounds)
     df = None
     df_nan = None
     if cols is not None:
@@ -266,7 +273,7 @@ def check_history(cands, steps, cols=None, h3mr=False, ncpus=1):
         if foreign:
             raise Violation(f'{where}: returned non-candidates {foreign[:3]}', kind='C07/foreign')
         chosen = set(got)
-        if chosen != candset:
+        if chosen and chosen != candset:
             mx_in = max(before[g] for g in chosen)
             mn_out = min(before[c] for c in cands if c not in chosen)
             if mx_in > mn_out:
@@ -514,7 +521,11 @@ def oracle(case, rec):
         rec.cls('uses-mixed_rank_graph')
     if any(k == 'pn' for k, _ in steps):
         rec.cls('heuristic-with-nan-scores')
-    check_history(cands, steps, cols)
+    if case.get('rounds'):
+        rec.cls('fast-forwarded-by-%s-rounds' % ('<2^16' if case['rounds'] < 2**16 - 2 else '~2^16' if case['rounds'] <= 2**16 else '~2^31'))
+    if any(c == 0 for c in caps):
+        rec.cls('has-cap-0')
+    check_history(cands, steps, cols, rounds=int(case.get('rounds') or 0))
 
 
 KINDS = ['C07/history', 'C07/task', 'C07/exhaustive', 'C07/size', 'C07/distinct', 'C07/foreign', 'C07/least-evaluated', 'C07/fairness', 'C07/counter']
